@@ -207,3 +207,20 @@ impl crate::save::upload::Table for Blueprint {
         unimplemented!()
     }
 }
+
+/// verification hooks: build a solver from parts and sample one tree
+#[cfg(robopoker_verif)]
+impl Blueprint {
+    pub fn verif_new(profile: Profile, encoder: Encoder) -> Self {
+        Self {
+            profile: Arc::new(RwLock::new(profile)),
+            encoder,
+        }
+    }
+    pub fn verif_tree(&self) -> Tree {
+        self.tree()
+    }
+    pub fn verif_profile(&self) -> Arc<RwLock<Profile>> {
+        self.profile.clone()
+    }
+}
